@@ -28,6 +28,10 @@ package main
 // Case line:   h <vals> <tx>|<tx>|...        (same framing as C03)   or   h1 <vals> <tx>|...
 //
 //	h : every field's symbol name = stored key = name in the caller's FieldChecker
+//	h2: the TYPED variant: the unique indexes are over NON-STRING symbols - alias int64 (nullable unique), code (A1) int32
+//	    (unique), colour (A2) float64 (nullable unique), label (B) int32 (nullable unique).  A case's value v of such a field is
+//	    the number whose little-endian digits are v (SetInt64 / SetInt32 / SetFloat64(Float64frombits)), so the raw stored bytes
+//	    - and the index key - are v zero-padded to 8 / 4 / 8 / 4 bytes (an empty v is the number 0, NOT an empty value)
 //	h1: the naming variant  name: symbol "title", key "nm", checker name "displayName" (AddSymbolWithKey + WithFieldOverrides);
 //	    alias: symbol "nick", key "aka", checker name "alias"; roles: checker name "roleAttributes"; colour (A2): checker name "tint"
 //
@@ -55,6 +59,8 @@ import (
 	"fmt"
 	"sort"
 	"strings"
+
+	"math"
 
 	"github.com/openziti/foundation/v2/errorz"
 	"github.com/openziti/storage/ast"
@@ -86,13 +92,44 @@ func (e *c06Thing) GetEntityType() string { return "things" }
 // and the one the caller's FieldChecker knows it by
 type c06Names struct{ sym, key, chk string }
 
-type c06Schema struct{ name, alias, roles, colour c06Names }
+type c06Schema struct {
+	name, alias, roles, colour c06Names
+	// typed: alias int64, code int32, colour float64, label int32 (unique indexes over non-string symbols)
+	typed bool
+}
+
+// c06LE: the number whose little-endian digits are the bytes of v
+func c06LE(v string) uint64 {
+	var n uint64
+	for i := 0; i < len(v) && i < 8; i++ {
+		n |= uint64(v[i]) << (8 * uint(i))
+	}
+	return n
+}
+
+// c06Pad: the raw stored bytes of c06LE(v) in a field n bytes wide
+func c06Pad(v string, n int) []byte {
+	b := make([]byte, n)
+	copy(b, v)
+	return b
+}
+
+// c06Unpad: the shortest v with c06LE(v) = n
+func c06Unpad(n uint64) string {
+	var b []byte
+	for ; n != 0; n >>= 8 {
+		b = append(b, byte(n))
+	}
+	return string(b)
+}
 
 var c06Schemas = map[string]*c06Schema{
 	"h": {name: c06Names{"name", "name", "name"}, alias: c06Names{"alias", "alias", "alias"},
 		roles: c06Names{"roles", "roles", "roles"}, colour: c06Names{"colour", "colour", "colour"}},
 	"h1": {name: c06Names{"title", "nm", "displayName"}, alias: c06Names{"nick", "aka", "alias"},
 		roles: c06Names{"roles", "roles", "roleAttributes"}, colour: c06Names{"colour", "colour", "tint"}},
+	"h2": {name: c06Names{"name", "name", "name"}, alias: c06Names{"alias", "alias", "alias"},
+		roles: c06Names{"roles", "roles", "roles"}, colour: c06Names{"colour", "colour", "colour"}, typed: true},
 }
 
 func c06Overrides(ctx *boltz.PersistContext, ns ...c06Names) {
@@ -113,6 +150,13 @@ func (c06ThingStrategy) NewEntity() *c06Thing { return &c06Thing{} }
 func (s c06ThingStrategy) FillEntity(e *c06Thing, b *boltz.TypedBucket) {
 	e.Name = b.GetStringWithDefault(s.sch.name.key, "")
 	e.Alias = b.GetString(s.sch.alias.key)
+	if s.sch.typed {
+		e.Alias = nil
+		if n := b.GetInt64(s.sch.alias.key); n != nil {
+			v := c06Unpad(uint64(*n))
+			e.Alias = &v
+		}
+	}
 	e.Roles = b.GetStringList(s.sch.roles.key)
 	e.Owner = b.GetString("owner")
 	e.Dep = b.GetString("dep")
@@ -123,7 +167,11 @@ func (s c06ThingStrategy) FillEntity(e *c06Thing, b *boltz.TypedBucket) {
 func (s c06ThingStrategy) PersistEntity(e *c06Thing, ctx *boltz.PersistContext) {
 	c06Overrides(ctx, s.sch.name, s.sch.alias, s.sch.roles)
 	ctx.SetString(s.sch.name.key, e.Name)
-	ctx.SetStringP(s.sch.alias.key, e.Alias)
+	if s.sch.typed && e.Alias != nil {
+		ctx.SetInt64(s.sch.alias.key, int64(c06LE(*e.Alias)))
+	} else {
+		ctx.SetStringP(s.sch.alias.key, e.Alias) // nil: the nil field, whatever the symbol's type
+	}
 	ctx.SetStringList(s.sch.roles.key, e.Roles)
 	ctx.SetStringP("owner", e.Owner)
 	ctx.SetStringP("dep", e.Dep)
@@ -138,18 +186,28 @@ type c06Ext struct {
 	Pals []string
 }
 
-type c06ExtStrategy struct{ parent *boltz.BaseStore[*c06Thing] }
+type c06ExtStrategy struct {
+	sch    *c06Schema
+	parent *boltz.BaseStore[*c06Thing]
+}
 
 func (s *c06ExtStrategy) NewEntity() *c06Ext { return &c06Ext{} }
 func (s *c06ExtStrategy) FillEntity(e *c06Ext, b *boltz.TypedBucket) {
 	_, err := s.parent.LoadEntity(b.Tx(), e.Id, &e.c06Thing)
 	b.SetError(err)
 	e.Code = b.GetStringWithDefault("code", "")
+	if s.sch.typed {
+		e.Code = c06Unpad(uint64(uint32(b.GetInt32WithDefault("code", 0))))
+	}
 	e.Pals = b.GetStringList("pals")
 }
 func (s *c06ExtStrategy) PersistEntity(e *c06Ext, ctx *boltz.PersistContext) {
 	s.parent.GetEntityStrategy().PersistEntity(&e.c06Thing, ctx.GetParentContext())
-	ctx.SetString("code", e.Code)
+	if s.sch.typed {
+		ctx.SetInt32("code", int32(uint32(c06LE(e.Code))))
+	} else {
+		ctx.SetString("code", e.Code)
+	}
 	ctx.SetLinkedIds("pals", append([]string{}, e.Pals...))
 }
 
@@ -168,11 +226,21 @@ func (s *c06Ext2Strategy) FillEntity(e *c06Ext2, b *boltz.TypedBucket) {
 	_, err := s.parent.LoadEntity(b.Tx(), e.Id, &e.c06Thing)
 	b.SetError(err)
 	e.Colour = b.GetStringWithDefault(s.sch.colour.key, "")
+	if s.sch.typed {
+		e.Colour = ""
+		if x := b.GetFloat64(s.sch.colour.key); x != nil {
+			e.Colour = c06Unpad(math.Float64bits(*x))
+		}
+	}
 }
 func (s *c06Ext2Strategy) PersistEntity(e *c06Ext2, ctx *boltz.PersistContext) {
 	s.parent.GetEntityStrategy().PersistEntity(&e.c06Thing, ctx.GetParentContext())
 	c06Overrides(ctx, s.sch.colour)
-	ctx.SetString(s.sch.colour.key, e.Colour)
+	if s.sch.typed {
+		ctx.Bucket.SetFloat64(s.sch.colour.key, math.Float64frombits(c06LE(e.Colour)), ctx.FieldChecker)
+	} else {
+		ctx.SetString(s.sch.colour.key, e.Colour)
+	}
 }
 
 type c06Owner struct {
@@ -184,12 +252,25 @@ func (e *c06Owner) GetId() string         { return e.Id }
 func (e *c06Owner) SetId(id string)       { e.Id = id }
 func (e *c06Owner) GetEntityType() string { return "owners" }
 
-type c06OwnerStrategy struct{}
+type c06OwnerStrategy struct{ sch *c06Schema }
 
-func (c06OwnerStrategy) NewEntity() *c06Owner                       { return &c06Owner{} }
-func (c06OwnerStrategy) FillEntity(e *c06Owner, b *boltz.TypedBucket) { e.Label = b.GetString("label") }
-func (c06OwnerStrategy) PersistEntity(e *c06Owner, ctx *boltz.PersistContext) {
-	ctx.SetStringP("label", e.Label)
+func (c06OwnerStrategy) NewEntity() *c06Owner { return &c06Owner{} }
+func (s c06OwnerStrategy) FillEntity(e *c06Owner, b *boltz.TypedBucket) {
+	e.Label = b.GetString("label")
+	if s.sch.typed {
+		e.Label = nil
+		if n := b.GetInt32("label"); n != nil {
+			v := c06Unpad(uint64(uint32(*n)))
+			e.Label = &v
+		}
+	}
+}
+func (s c06OwnerStrategy) PersistEntity(e *c06Owner, ctx *boltz.PersistContext) {
+	if s.sch.typed && e.Label != nil {
+		ctx.SetInt32("label", int32(uint32(c06LE(*e.Label))))
+	} else {
+		ctx.SetStringP("label", e.Label)
+	}
 }
 
 type c06Stores struct {
@@ -208,18 +289,22 @@ type c06Stores struct {
 
 func c06Wire(sch *c06Schema) *c06Stores {
 	s := &c06Stores{sch: sch}
+	tyAlias, tyCode, tyColour, tyLabel := ast.NodeTypeString, ast.NodeTypeString, ast.NodeTypeString, ast.NodeTypeString
+	if sch.typed {
+		tyAlias, tyCode, tyColour, tyLabel = ast.NodeTypeInt64, ast.NodeTypeInt64, ast.NodeTypeFloat64, ast.NodeTypeInt64
+	}
 	s.things = boltz.NewBaseStore(boltz.StoreDefinition[*c06Thing]{
 		EntityType: "things", EntityStrategy: c06ThingStrategy{sch: sch}, BasePath: []string{"u"},
 		EntityNotFoundF: func(id string) error { return boltz.NewNotFoundError("thing", "id", id) },
 	})
 	s.things.InitImpl(s.things)
 	s.owners = boltz.NewBaseStore(boltz.StoreDefinition[*c06Owner]{
-		EntityType: "owners", EntityStrategy: c06OwnerStrategy{}, BasePath: []string{"u"},
+		EntityType: "owners", EntityStrategy: c06OwnerStrategy{sch: sch}, BasePath: []string{"u"},
 		EntityNotFoundF: func(id string) error { return boltz.NewNotFoundError("owner", "id", id) },
 	})
 	s.owners.InitImpl(s.owners)
 	s.ext = boltz.NewBaseStore(boltz.StoreDefinition[*c06Ext]{
-		EntityStrategy: &c06ExtStrategy{parent: s.things}, BasePath: []string{"ext1"}, Parent: s.things,
+		EntityStrategy: &c06ExtStrategy{sch: sch, parent: s.things}, BasePath: []string{"ext1"}, Parent: s.things,
 		ParentMapper: func(e boltz.Entity) boltz.Entity {
 			if x, ok := e.(*c06Ext); ok {
 				return &x.c06Thing
@@ -252,7 +337,7 @@ func c06Wire(sch *c06Schema) *c06Stores {
 
 	// owners: label first, so that the fk delete constraint is registered after it
 	s.owners.AddIdSymbol("id", ast.NodeTypeString)
-	symLabel := s.owners.AddSymbol("label", ast.NodeTypeString)
+	symLabel := s.owners.AddSymbol("label", tyLabel)
 	s.idxLabel = s.owners.AddNullableUniqueIndex(symLabel)
 	symThings := s.owners.AddFkSetSymbol("things", s.things)
 	symMembers := s.owners.AddFkSetSymbol("members", s.things)
@@ -266,7 +351,7 @@ func c06Wire(sch *c06Schema) *c06Stores {
 	s.things.AddFkConstraint(symBoss, true, boltz.CascadeDelete)
 	symName := s.things.AddSymbolWithKey(sch.name.sym, ast.NodeTypeString, sch.name.key)
 	s.idxName = s.things.AddUniqueIndex(symName)
-	symAlias := s.things.AddSymbolWithKey(sch.alias.sym, ast.NodeTypeString, sch.alias.key)
+	symAlias := s.things.AddSymbolWithKey(sch.alias.sym, tyAlias, sch.alias.key)
 	s.idxAlias = s.things.AddNullableUniqueIndex(symAlias)
 	symRoles := s.things.AddSetSymbol(sch.roles.sym, ast.NodeTypeString)
 	s.idxRoles = s.things.AddSetIndex(symRoles)
@@ -291,7 +376,7 @@ func c06Wire(sch *c06Schema) *c06Stores {
 	s.things.AddLinkCollection(symMentees, symMentors)
 
 	s.things.GrantSymbols(s.ext)
-	symCode := s.ext.AddSymbol("code", ast.NodeTypeString)
+	symCode := s.ext.AddSymbol("code", tyCode)
 	s.idxCode = s.ext.AddUniqueIndex(symCode)
 	// a link collection declared on the child store
 	symPals := s.ext.AddFkSetSymbol("pals", s.owners)
@@ -300,7 +385,7 @@ func c06Wire(sch *c06Schema) *c06Stores {
 	s.owners.AddLinkCollection(symPalsOf, symPals)
 
 	s.things.GrantSymbols(s.ext2)
-	symColour := s.ext2.AddSymbolWithKey(sch.colour.sym, ast.NodeTypeString, sch.colour.key)
+	symColour := s.ext2.AddSymbolWithKey(sch.colour.sym, tyColour, sch.colour.key)
 	s.idxColour = s.ext2.AddNullableUniqueIndex(symColour)
 	return s
 }
@@ -487,12 +572,19 @@ func (s *c06Stores) apply(ctx boltz.MutateContext, op c06Op) error {
 
 func (s *c06Stores) reads(tx *bbolt.Tx, vals []string) string {
 	var b strings.Builder
+	// the key an index over the field holds the value v under: the raw stored bytes
+	key := func(v string, n int) []byte {
+		if s.sch.typed {
+			return c06Pad(v, n)
+		}
+		return []byte(v)
+	}
 	for _, v := range vals {
 		fmt.Fprintf(&b, "n:%s=%s;", toWire(v), csHexOrNil(s.idxName.Read(tx, []byte(v))))
-		fmt.Fprintf(&b, "a:%s=%s;", toWire(v), csHexOrNil(s.idxAlias.Read(tx, []byte(v))))
-		fmt.Fprintf(&b, "c:%s=%s;", toWire(v), csHexOrNil(s.idxCode.Read(tx, []byte(v))))
-		fmt.Fprintf(&b, "l:%s=%s;", toWire(v), csHexOrNil(s.idxLabel.Read(tx, []byte(v))))
-		fmt.Fprintf(&b, "x:%s=%s;", toWire(v), csHexOrNil(s.idxColour.Read(tx, []byte(v))))
+		fmt.Fprintf(&b, "a:%s=%s;", toWire(v), csHexOrNil(s.idxAlias.Read(tx, key(v, 8))))
+		fmt.Fprintf(&b, "c:%s=%s;", toWire(v), csHexOrNil(s.idxCode.Read(tx, key(v, 4))))
+		fmt.Fprintf(&b, "l:%s=%s;", toWire(v), csHexOrNil(s.idxLabel.Read(tx, key(v, 4))))
+		fmt.Fprintf(&b, "x:%s=%s;", toWire(v), csHexOrNil(s.idxColour.Read(tx, key(v, 8))))
 		var ids []string
 		s.idxRoles.Read(tx, []byte(v), func(val []byte) { ids = append(ids, string(val)) })
 		fmt.Fprintf(&b, "r:%s=%s;", toWire(v), csList(csSortedCopy(ids)))
@@ -1155,8 +1247,11 @@ func c06Gen(tier string, seed uint64, out *bufio.Writer) {
 			nTx = 6 + r.intn(36)
 		}
 		head := "h"
-		if r.chance(1, 3) {
+		switch k := r.intn(6); {
+		case k < 2:
 			head = "h1" // the naming variant of the schema
+		case k == 2:
+			head = "h2" // the typed variant: unique indexes over int64 / int32 / float64 symbols
 		}
 		fmt.Fprintf(out, "%s %s %s\n", head, c06ReadVals, c06GenHistory(r, nTx))
 	}
